@@ -1,7 +1,7 @@
 """In-memory object store standing in for the cloud SDK / HTTP layer of the C23 check (TRUSTED, listed in C23.trusted).
 
 What is faked is only what lies *below* the repo code:
-* GCS JSON API over HTTP:  a `BaseSession` whose GET `…/b/<bucket>/o/<name>?alt=media` honours a single `Range: bytes=a-[b]` header
+* GCS JSON API over HTTP:  a stand-in for `hailtop.httpx.ClientSession` (BELOW the real `Session` + credentials layer) whose GET `…/b/<bucket>/o/<name>?alt=media` honours a single `Range: bytes=a-[b]` header
   with RFC 7233 semantics (a >= size -> 416; b clipped to size-1; b < a -> header ignored, 200 with the full entity);
   the response body is a REAL `aiohttp.StreamReader`, fed in chunks.  Object metadata GET -> 200/404; list objects -> items/prefixes.
 * S3 (boto3 client):       `get_object(Bucket, Key, Range=…)` with the same byte-range semantics, unsatisfiable range -> ClientError
@@ -23,6 +23,7 @@ class Store:
     def __init__(self):
         self.objects = {}   # name -> bytes   (one bucket / container)
         self.log = []
+        self.auth_seen = []
         self.chunk = 0      # 0 = deliver bodies in one piece, k>0 = pieces of k bytes
 
     def pieces(self, data: bytes):
@@ -92,8 +93,12 @@ class FakeGCSResponse:
         self.close()
 
 
-def make_gcs_session(store: Store, base_session_cls, client_response_error):
-    class FakeGCSSession(base_session_cls):
+def make_gcs_http_session(store: Store, client_response_error):
+    """The fake sits at the HTTP layer: it stands in for `hailtop.httpx.ClientSession` *below* the real
+    `hailtop.aiocloud.common.session.Session` (credentials, auth headers, 401 -> refresh -> retry), so what it sees is what would go
+    on the wire.  A request carrying `Authorization: Bearer stale` is answered 401 (expired token); anything else is served."""
+
+    class FakeHttpSession:
         async def request(self, method, url, **kwargs):
             u = urllib.parse.urlparse(url)
             params = dict(kwargs.get('params') or {})
@@ -103,8 +108,13 @@ def make_gcs_session(store: Store, base_session_cls, client_response_error):
             name = urllib.parse.unquote(m.group(2)) if m.group(2) else None
 
             def fail(status):
-                raise client_response_error(None, (), status=status, message=str(status), headers={}, body='')
+                import types
+                info = types.SimpleNamespace(real_url=url, url=url, method=method, headers={})
+                raise client_response_error(info, (), status=status, message=str(status), headers={}, body='')
 
+            store.auth_seen.append(headers.get('Authorization'))
+            if headers.get('Authorization') == 'Bearer stale':
+                fail(401)
             if name is None:                      # list objects
                 prefix = params.get('prefix', '')
                 delim = params.get('delimiter')
@@ -136,7 +146,35 @@ def make_gcs_session(store: Store, base_session_cls, client_response_error):
                 fail(404)
             return FakeGCSResponse(200, [], json_body={'name': name, 'size': str(len(store.objects[name]))})
 
-    return FakeGCSSession()
+        async def close(self):
+            return None
+
+    return FakeHttpSession()
+
+
+def make_token_credentials(cloud_credentials_cls, refresh: bool):
+    """a token credential (stand-in for a service-account / user credential): `refresh=False` always hands out a valid token;
+    `refresh=True` hands out an *expired* token on every odd call, so each request is first answered 401 and the real Session has
+    to fetch fresh headers and rebuild the request for a second attempt"""
+    import time
+
+    class TokenCredentials(cloud_credentials_cls):
+        def __init__(self):
+            self.calls = 0
+
+        async def auth_headers_with_expiration(self):
+            self.calls += 1
+            if refresh and self.calls % 2 == 1:
+                return {'Authorization': 'Bearer stale'}, time.time() - 60
+            return {'Authorization': 'Bearer fresh'}, None
+
+        async def access_token_with_expiration(self):
+            return 'fresh', None
+
+        async def close(self):
+            return None
+
+    return TokenCredentials()
 
 
 # ---------------------------------------------------------------------------------------------------- S3
